@@ -9,6 +9,7 @@ package apd
 
 import (
 	"fmt"
+	"math"
 	"math/big"
 	"strconv"
 )
@@ -189,6 +190,40 @@ func verifObserveBig(name string, v *BigInt) {
 	verifRes.Observed[name] = v.MathBigInt().String()
 }
 func verifObserveStr(name string, v string) { verifRes.Observed[name] = v }
+func verifObserveFloat(name string, f float64) {
+	verifRes.Observed[name] = strconv.FormatUint(math.Float64bits(f), 10)
+}
+
+// verifMakeFloat: the float64 (-1)^neg * m * 2^k for a 53-bit significand 2^52 <= m < 2^53.
+func verifMakeFloat(neg bool, m *BigInt, k int64) float64 {
+	f := math.Ldexp(float64(m.Int64()), int(k))
+	if neg {
+		f = -f
+	}
+	return f
+}
+
+// verifFloatSame: identical bit patterns.
+func verifFloatSame(f, g float64) bool { return math.Float64bits(f) == math.Float64bits(g) }
+
+// verifFloatNearest: f is the float64 nearest (IEEE-754 round to nearest, ties to even) to
+// (-1)^neg * coeff * 10^exp, with the sign of a zero taken from neg. The engine states this
+// over exact integers (significand and binary exponent of f); natively math/big does.
+func verifFloatNearest(f float64, neg bool, coeff *BigInt, exp int64) bool {
+	r := new(big.Rat).SetInt(coeff.MathBigInt())
+	p := new(big.Int).Exp(big.NewInt(10), big.NewInt(exp), nil)
+	if exp < 0 {
+		p.Exp(big.NewInt(10), big.NewInt(-exp), nil)
+		r.Quo(r, new(big.Rat).SetInt(p))
+	} else {
+		r.Mul(r, new(big.Rat).SetInt(p))
+	}
+	want, _ := r.Float64()
+	if neg {
+		want = -want
+	}
+	return math.Float64bits(f) == math.Float64bits(want)
+}
 
 func verifSnapBig(b *BigInt) (BigInt, []big.Word) {
 	s := *b
